@@ -150,7 +150,57 @@ def make_linker(case, api=None):
         df = pd.DataFrame([{c: v, f"tf_{c}": float(Fr(t))} for v, t in tbl.items()])
         df[c] = df[c].astype("string")
         lk.table_management.register_term_frequency_lookup(df, c)
+    for c in case.get("computed_tf", []):          # __splink__df_tf_<col> computed from the data and cached
+        lk.table_management.compute_tf_table(c)
     return lk
+
+
+TFV = ["1/2", "1/4", "1/10", "3/100", "1/5", "7/10", "1/1000", "1/8", "9/10", "1/3"]
+
+
+def near_misses(c, rows):
+    """values that do NOT occur in column c of the data but are close to values that do (same length,
+    same first character, edit distance 1) or belong to the column's domain: they reach fuzzy levels"""
+    present = {r[c] for r in rows if r[c] is not None}
+    cand = [v for v in X.DOM[c] if v not in present]
+    for v in sorted(present):
+        if len(v) > 1:
+            cand.append(v[:-1] + ("z" if v[-1] != "z" else "y"))
+    return [v for v in dict.fromkeys(cand) if v not in present]
+
+
+def gen_lookups(rng, spec, rows, force_cols=()):
+    """registered TF lookup tables: arbitrary frequencies for values of the data (NOT the data's own
+    frequencies), some data values missing (NULL tf), and values that do not occur in the data at all"""
+    out = {}
+    for c in spec["tf_cols"]:
+        if c in force_cols or rng.random() < 0.5:
+            vals = sorted({r[c] for r in rows if r[c] is not None})
+            tbl = {v: rng.choice(TFV) for v in vals if rng.random() < 0.75}
+            if not tbl:
+                tbl[vals[0]] = "1/4"
+            absent = near_misses(c, rows)
+            rng.shuffle(absent)
+            for v in absent[:rng.randint(1, 3)]:
+                tbl[v] = rng.choice(TFV)
+            tbl["zzz-unseen"] = "1/100"
+            out[c] = tbl
+    return out
+
+
+def absent_lookup_values(case, c):
+    present = {r[c] for r in case["rows"] if r[c] is not None}
+    return [v for v in case["lookups"].get(c, {}) if v not in present and v != "zzz-unseen"]
+
+
+def plant_absent(rng, case, row, prob):
+    """with probability prob give the record a value that only the registered lookup knows"""
+    cols = [c for c in case["lookups"] if absent_lookup_values(case, c)]
+    if cols and rng.random() < prob:
+        c = rng.choice(cols)
+        row[c] = rng.choice(absent_lookup_values(case, c))
+        return c
+    return None
 
 
 def tf_for_value(spec, rows, lookups, c, v):
@@ -188,6 +238,8 @@ def new_records(rng, case):
             for c in G.COLS:
                 if rng.random() < 0.5:
                     base[c] = rng.choice(X.DOM[c] + ["unseen", None])
+        if plant_absent(rng, case, base, 0.5):
+            base["_copy_of"] = None
         base["unique_id"] = nid
         if mode == "none":
             base["source_dataset"] = "new_record" if linked(case) else "ta"
@@ -297,8 +349,11 @@ def run_entries(case, rng, api_hook=None):
         variant = rng.choice(["plain", "plain", "unseen", "supplied"])
         supL = supR = None
         if variant == "unseen":
-            c = rng.choice(G.COLS)
-            Rrows[0][c] = rng.choice(["zed", None, "unseen"])
+            if not plant_absent(rng, case, Rrows[0], 0.7):
+                c = rng.choice(G.COLS)
+                Rrows[0][c] = rng.choice(["zed", None, "unseen"])
+            if rng.random() < 0.3:
+                plant_absent(rng, case, Lrows[0], 1.0)
         if variant == "supplied" and spec["tf_cols"]:
             cs = [c for c in spec["tf_cols"] if rng.random() < 0.7] or spec["tf_cols"][:1]
             vals = ["1/2", "1/10", "3/100", "1/4", "9/10"]
@@ -311,10 +366,11 @@ def run_entries(case, rng, api_hook=None):
     if case["cold"]:
         lk2 = make_linker(case)
         L, R = pick_sides(multi=False)
-        rl, rr = byid[L[0]], byid[R[0]]
+        rl, rr = dict(byid[L[0]]), dict(byid[R[0]])
+        plant_absent(rng, case, rr, 0.6)
         out = su.records(lk2.inference.compare_two_records(frame_of([rl], lnk), frame_of([rr], lnk)))
         tfv = {c: ((tf_for_value(spec, rows, lookups, c, rl[c]), tf_for_value(spec, rows, lookups, c, rr[c]))
-                   if c in lookups else (None, None)) for c in spec["tf_cols"]}
+                   if (c in lookups or c in case.get("computed_tf", [])) else (None, None)) for c in spec["tf_cols"]}
         assert len(out) == 1
         entries.append(("compare_two_records:cold", rl, rr, tfv, out[0], None))
 
@@ -397,7 +453,9 @@ def run_entries(case, rng, api_hook=None):
         api_hook(api, "done")
     # outcomes for the scored rows, in each entry point's own orientation
     ocs = X.outcomes_rows(case, lk, [(e[1], e[2]) for e in entries])
-    return {"entries": entries, "outcomes": ocs, "predmap": predmap, "fm": fm, "me": me, "linker": lk}
+    only = {c: set(absent_lookup_values(case, c)) for c in lookups}
+    n_planted = sum(1 for e in entries if e[0] != "predict" and any(e[k].get(c) in only[c] for k in (1, 2) for c in only))
+    return {"n_planted": n_planted, "entries": entries, "outcomes": ocs, "predmap": predmap, "fm": fm, "me": me, "linker": lk}
 
 
 def scoring_term(case, res):
